@@ -4,7 +4,7 @@ from harness.oracles import all as ALL
 
 ID = 'C05'
 UNITS = ['bipartite_match', 'match_events', 'note_matching', 'multipitch_metrics', 'transcription_scores', 'event_metrics']
-TRANSLATORS = ['wrapfuncs']
+TRANSLATORS = ['wrapfuncs', 'matchfuncs', 'notefuncs']
 NOT_COVERED = ('np.argsort tie order: on references with tied values only sizes and validity are compared, not identical pairs')
 ASSUMPTIONS = ['dict insertion order of CPython >= 3.7 (the model reproduces the returned dict including its order)']
 
